@@ -18,6 +18,7 @@ witness replays exactly).  Byte strings are carried as latin-1 ``str``:
     root_path     '' or '/mount'
     http_version  '1.0' | '1.1' | '2'
     opts          [strip_url_path_trailing_slash, keep_blank_qs_values, auto_parse_qs_csv]
+    mw            'independent' | 'dependent': App(independent_middleware=...) of both apps
     script        what the responder does (see vlib/models/c06_gen.py)
     sim           None, or a dict of *style* choices for the falcon.testing leg
 
@@ -48,6 +49,7 @@ DEFAULTS = {
     'method': 'GET', 'target': '/', 'query': '', 'headers': [], 'body': '', 'chunks': None,
     'scheme': 'http', 'server': ['falconframework.org', 80], 'client': ['127.0.0.1', 51234],
     'root_path': '', 'http_version': '1.1', 'opts': [False, True, False], 'script': None, 'sim': None,
+    'mw': 'independent',
 }
 # NOTE: falcon's RequestOptions defaults: strip_url_path_trailing_slash=False,
 #   keep_blank_qs_values=True, auto_parse_qs_csv=False; the check builds all 8 combinations.
